@@ -53,6 +53,7 @@ import (
 	"iter"
 	"log/slog"
 	"net/http"
+	"slices"
 	"time"
 
 	"github.com/bartventer/httpcache/internal"
@@ -459,6 +460,15 @@ func (r *transport) backgroundRevalidate(
 			errc <- req.Context().Err()
 			return
 		default:
+		}
+		// The index is read again: while the origin was asked, other variants may
+		// have been stored (or this one replaced), and writing back the index as it
+		// was when the stale response was served would drop them.
+		if current, err := r.cache.GetRefs(urlKey); err == nil {
+			id := refs[refIndex].ResponseID
+			if i := slices.IndexFunc(current, func(ref *internal.ResponseRef) bool { return ref != nil && ref.ResponseID == id }); i >= 0 {
+				refs, refIndex = current, i
+			}
 		}
 		// The response that was served belongs to the caller by now: the outcome
 		// is applied to a copy of the stored entry that is our own.
